@@ -73,6 +73,18 @@ CHECKS = {
          "For each command of each seeded workload (new, describe, commit, squash, abandon, bookmark set, edit, undo, restore, rebase, workspace add; git, colocated-git and simple backends) the unguarded jj binary is re-executed from a snapshot of the directory and killed at the k-th mutating syscall, for every k (thorough) or for all publication-critical k plus a seeded sample (quick). After each kill fresh processes check: op log loads (R1), no earlier operation lost (R2), head is the old one or one the command publishes (R3), every object reachable from every logged operation loads through jj-lib and git fsck is clean (R4), workspace update-stale + status succeed and every file content on disk before the command is on disk or in a recorded working-copy commit (R5).",
          "Process-kill model only (no power loss / lost page cache). Kill points of one execution are enumerated completely; workloads are sampled by seed. Residual nondeterminism of the tracee can cost replay exactness, never a false alarm (any kill instant is a legal crash).",
          "§3.3, §4 C15"),
+ "C07": ("tasksim", "exploration", "deterministic simulation of the tree merger's task scheduler: backend futures completed in seeded order, drawn concurrency limit, injected read errors; compared with the sequential schedule and the path-wise definition",
+         "merge_trees keeps up to store.concurrency() backend futures in a FuturesUnordered. The harness wraps the real SimpleBackend so that every read/write future stays pending for a seeded number of polls (completion order owned by the seed), draws the concurrency limit from {1,2,3,10} and fails reads. For 3-, 5- and 7-way merges of generated trees (files, executables, symlinks, nested dirs, file/dir replacement) it requires: same result as the sequential schedule; every path's value equals the merge of that path's entries on their own (trivial rule, else resolve_file_values); trivial whole-tree merges taken; conflict-free iff no path conflicts; a failed read yields Err, and a retry yields the reference tree.",
+         "resolve_file_values is the per-path reference for non-trivial file merges (C04 is pure and not claimed).",
+         "§3.7, §4 C07"),
+ "C03": ("hashsim", "exploration", "deterministic simulation of the diff's random hash seed: RandomState keys owned by the harness (getrandom seam), weak-hash fault (hook H4)",
+         "Every generated input list is diffed with each tokenizer/comparison under three RandomState seeds (fresh threads) and once with the word hash truncated to 8 bits, so collisions are common. On every run: concatenated hunk slices reproduce each input, hunk_ranges agree with hunks, matching hunks are equal under the chosen comparison, no hunk is empty on every side, kinds alternate; across runs: identical hunks (the statement's 'same on every run').",
+         "Only the seed/collision dimension is a simulation target; exhaustive input coverage is not claimed (inputs up to ~12 lines).",
+         "§3.8, §4 C03"),
+ "C43": ("configsim", "exploration", "deterministic simulation of copy/move/delete histories and hostile config-id files against the real SecureConfig, crash states of generate_config, seeded RNG",
+         "Histories over up to 5 repository directories sharing one per-user config root: create, load, edit through the returned path, recursive copy, move, delete, plant malformed config-id contents (wrong length, non-hex, ../, absolute, trailing newline, non-UTF-8), plant legacy configs, orphan partial config dirs (crash between generate_config's steps). After every load: the config file is <root>/<20 hex>/config.toml; malformed ids are rejected without writing anything; a copy of a repo that still exists where jj last loaded it gets a different id with the original's content and leaves the original's file untouched; an unmoved repo keeps its id and content; two repos loaded where they are never share an id; nothing outside the root changes.",
+         "Read-only copies cannot be simulated as root. Move+copy ambiguity (jj cannot tell which directory is the original once it moved) is deliberately not judged.",
+         "§3.9, §4 C43"),
  "C21": ("tablesim", "exploration", "deterministic simulation: seeded baton scheduler over the table store's file-system primitives, crash and ineffective-lock faults, key/value reference model",
          "Seeded search over interleavings of 2-4 simulated processes (lock-less saves, locked saves, readers with reload) at the real TableStore's list/load/persist/add-head/remove-head/lock steps on tmpfs, with process crashes and ineffective locks; oracle is a map of completed saves (every completed save's entries present, later sequential save wins, heads never empty, reload does not change lookups). Sampling, not proof: the right level because the property quantifies over schedules the suite cannot control.",
          "Trusts: atomicity of readdir/create/unlink/rename as single steps; the hook points sit inside the primitives; HashMap order does not reach the event log (checked by the determinism sweep). Three known findings (known_findings.jsonl) are reported as KNOWN-FINDING and not as violations.",
@@ -80,6 +92,9 @@ CHECKS = {
 }
 
 ENGINES = {
+ "tasksim": ("sim/src/engines/tasksim.rs", "tree merger under a seeded completion order of backend futures"),
+ "hashsim": ("sim/src/engines/hashsim.rs", "content diff under harness-owned RandomState seeds and a weak hash"),
+ "configsim": ("sim/src/engines/configsim.rs", "secure per-repo config under copy/move/delete histories and hostile ids"),
  "crashsim": ("sim/src/engines/crashsim.rs + sim/src/ptrace.rs", "ptrace supervisor killing the real jj binary at every write syscall + recovery oracle"),
  "wcsim": ("sim/src/engines/wcsim.rs", "working copy vs. an editing user under a simulated coarse file-system clock"),
  "reposim": ("sim/src/engines/reposim.rs", "concurrent jj processes on one repository: baton scheduler at file-system primitives + crash / I/O error / lock / clock faults + model-based monitors"),
